@@ -3,7 +3,7 @@
 # (outside /repo and /verif), then stores it under /verif/seeded/<PROP><variant>/.
 set -u
 P=$1; V=$2
-SRC=/tmp/wt-out/$P/$V
+SRC=${SRCROOT:-/tmp/wt-out}/$P/$V
 export GOFLAGS=-mod=mod GOPROXY=off GOSUMDB=off GOTOOLCHAIN=local
 WT=$(mktemp -d /tmp/confirm-$P$V-XXXX)
 rmdir $WT
@@ -15,6 +15,7 @@ demo_rel=$(head -1 $SRC/demo_path.txt | tr -d '\r\n ')
 demo_file=$(ls $SRC/*_test.go 2>/dev/null | head -1)
 demo_cmd=$(python3 -c "import json;print(json.load(open('$SRC/meta.json'))['demo_cmd'])")
 demo_cmd=${demo_cmd#cd * && }
+demo_cmd=$(printf %s "$demo_cmd" | sed -E 's/ +\(.*$//')  # drop a trailing free-text annotation
 # 1. demo passes without the change
 mkdir -p $WT/$(dirname $demo_rel); cp $demo_file $WT/$demo_rel
 ( cd $WT/src && timeout 1200 bash -c "$demo_cmd" ) > $WT.demo_clean.log 2>&1; c1=$?
@@ -27,7 +28,7 @@ rm -f $WT/$demo_rel
 ( cd $WT/src && timeout 1700 go test -vet=off -count=1 -timeout 25m ./... ) > $WT.suite.log 2>&1; s=$?
 echo "$P$V: build=$b demo_clean_exit=$c1 demo_mutant_exit=$c2 suite_exit=$s"
 if [ $b -eq 0 ] && [ $c1 -eq 0 ] && [ $c2 -ne 0 ] && [ $s -eq 0 ]; then
-  D=/verif/seeded/$P$V; mkdir -p $D
+  D=/verif/seeded/$P${TAG:-}$V; mkdir -p $D
   cp $SRC/patch.diff $D/patch.diff; cp $demo_file $D/; cp $SRC/demo_path.txt $D/
   python3 - "$SRC/meta.json" "$D/meta.json" "$demo_cmd" <<'PY'
 import json,sys
